@@ -54,6 +54,11 @@ VPSym(p, s) == V("sym", 0, s, p, FALSE, <<>>)
 VNil        == V("list", 0, "", "", FALSE, <<>>)
 VList(c)    == V("list", 0, "", "", FALSE, c)         \* an s-expression (code)
 VQList(c)   == V("list", 0, "", "", TRUE, c)          \* QExpr: data list
+\* vectors (one-dimensional arrays) and sorted-maps as immutable data: the in-place builtins live in Heap.tla.
+\* A map's c is its entry sequence in key order; each entry is a two-element list <<key as first spelled, value>>
+VVec(c)     == V("vec", 0, "", "", FALSE, c)
+VMap(c)     == V("map", 0, "", "", FALSE, c)
+IsSeq(v)    == v.t \in {"list", "vec"}
 VTrue       == VSym("true")
 VFalse      == VSym("false")
 VBool(b)    == IF b THEN VTrue ELSE VFalse
@@ -82,7 +87,8 @@ FUNS   == {"+", "-", "*", "=", "<", ">", "<=", ">=", "not", "list", "cons", "car
            "load-string", "in-package", "use-package", "export", "capture",
            "macroexpand", "macroexpand-1", "eval", "gensym", "equal?",
            "map", "foldl", "foldr", "select", "reject", "any?", "all?", "nth", "second", "append", "concat", "reverse", "empty?",
-           "mod", "max", "min", "list?", "int?", "symbol?", "true?", "float?", "number?"}
+           "mod", "max", "min", "list?", "int?", "symbol?", "true?", "float?", "number?",
+           "vector", "vector?", "array?", "aref", "string?", "sorted-map", "sorted-map?", "get", "key?", "keys", "assoc", "dissoc"}
 BuiltinKind(name) == IF name \in OPS THEN "op" ELSE IF name \in MACROS THEN "macro" ELSE "fun"
 BuiltinFID(v) == IF v.p = "op" THEN "<special-op ``" \o v.s \o "''>"
                  ELSE IF v.p = "macro" THEN "<builtin-macro ``" \o v.s \o "''>"
@@ -93,7 +99,11 @@ BuiltinFID(v) == IF v.p = "op" THEN "<special-op ``" \o v.s \o "''>"
 Arity(name) ==
   CASE name \in {"not", "car", "cdr", "first", "rest", "length", "identity", "nil?", "quote", "quasiquote", "macroexpand", "macroexpand-1", "eval"} -> <<1, 1>>
     [] name = "gensym" -> <<0, 0>>
-    [] name \in {"second", "empty?", "list?", "int?", "symbol?", "true?", "float?", "number?"} -> <<1, 1>>
+    [] name \in {"second", "empty?", "list?", "int?", "symbol?", "true?", "float?", "number?", "vector?", "array?", "string?", "sorted-map?", "keys"} -> <<1, 1>>
+    [] name \in {"vector", "sorted-map"} -> <<0, -1>>
+    [] name \in {"get", "key?", "dissoc"} -> <<2, 2>>
+    [] name = "assoc" -> <<3, 3>>
+    [] name = "aref" -> <<1, -1>>
     [] name \in {"nth", "mod", "any?", "all?", "reverse"} -> <<2, 2>>
     [] name \in {"map", "foldl", "foldr", "select", "reject"} -> <<3, 3>>
     [] name \in {"max", "min", "concat"} -> <<1, -1>>
@@ -407,9 +417,35 @@ ValEqual(a, b) ==
   ELSE CASE a.t = "int" -> a.n = b.n
          [] a.t = "str" -> a.s = b.s
          [] a.t = "sym" -> a.s = b.s /\ a.p = b.p
-         [] a.t \in {"list", "quote"} -> Len(a.c) = Len(b.c) /\ \A j \in 1..Len(a.c) : ValEqual(a.c[j], b.c[j])
+         [] a.t \in {"list", "quote", "vec"} -> Len(a.c) = Len(b.c) /\ \A j \in 1..Len(a.c) : ValEqual(a.c[j], b.c[j])
+         \* maps: same key NAMES (a string and a symbol spelling the same name are one key) and equal values
+         [] a.t = "map" -> Len(a.c) = Len(b.c) /\ \A j \in 1..Len(a.c) : a.c[j].c[1].s = b.c[j].c[1].s /\ ValEqual(a.c[j].c[2], b.c[j].c[2])
+         [] a.t = "float" -> a.s # "?" /\ b.s # "?" /\ a.n = b.n
          [] a.t = "fun" -> a.n = b.n /\ (a.n > 0 \/ a.s = b.s)
          [] OTHER -> FALSE
+
+\* ---- sorted-maps.  Keys are strings or symbols, identified by NAME; entries are kept in the sorted order of the names.
+\* TLC cannot compare strings, so the order is that of KeyRank over the key names the generated programs use.
+KeyRank(x) == CASE x = "a" -> 1 [] x = "b" -> 2 [] x = "c" -> 3 [] x = "k" -> 4 [] x = "x" -> 5 [] x = "y" -> 6 [] x = "z" -> 7 [] OTHER -> 100
+IsKey(v) == v.t \in {"str", "sym"}
+MapIndex(mp, name) == LET js == {j \in 1..Len(mp.c) : mp.c[j].c[1].s = name} IN IF js = {} THEN 0 ELSE CHOOSE j \in js : TRUE
+\* insert or replace.  Presentation of a key: once a name has been given as a SYMBOL it is shown as a symbol until the
+\* entry is removed (setting it again through a string does not change that); otherwise it is shown as a string
+MapPut(mp, k, v) ==
+  LET j == MapIndex(mp, k.s) IN
+  IF j > 0 THEN (LET shown == IF k.t = "sym" \/ mp.c[j].c[1].t = "sym" THEN VQSym(k.s) ELSE VStr(k.s) IN
+                 VMap([mp.c EXCEPT ![j] = VQList(<<shown, v>>)]))
+  ELSE LET before == SelectSeq(mp.c, LAMBDA e : KeyRank(e.c[1].s) < KeyRank(k.s))
+           after == SelectSeq(mp.c, LAMBDA e : KeyRank(e.c[1].s) > KeyRank(k.s)) IN
+       VMap(before \o <<VQList(<<IF k.t = "sym" THEN VQSym(k.s) ELSE VStr(k.s), v>>)>> \o after)
+RECURSIVE MapFromArgs(_, _, _)
+MapFromArgs(a, j, mp) == IF j > Len(a) THEN mp ELSE MapFromArgs(a, j + 2, MapPut(mp, a[j], a[j + 1]))
+KnownKeys(a) == \A j \in 1..Len(a) : (j % 2 = 1) => (IsKey(a[j]) /\ KeyRank(a[j].s) < 100)
+
+\* a sequence type specifier ('list or 'vector) and the sequence it makes of cells (concat gives () for no cells)
+SeqSpec(v) == v.t = "sym" /\ v.p = "" /\ v.s \in {"list", "vector"}
+MakeSeq(spec, cells, nilIfEmpty) == IF spec.s = "vector" THEN VVec(cells)
+                                    ELSE IF nilIfEmpty /\ Len(cells) = 0 THEN VNil ELSE VQList(cells)
 
 \* pure builtins: value, or "fail" marker
 PureBuiltin(name, a) ==
@@ -432,14 +468,29 @@ PureBuiltin(name, a) ==
     [] name = "identity" -> good(a[1])
     [] name = "list" -> good(VQList(a))             \* QExpr over the argument array: (list) is a quoted empty list
     [] name = "cons" -> IF a[2].t = "list" THEN good(VQList(<<a[1]>> \o a[2].c)) ELSE bad
-    [] name \in {"car", "first"} -> IF a[1].t # "list" THEN bad ELSE IF Len(a[1].c) = 0 THEN good(VNil) ELSE good(a[1].c[1])
-    [] name \in {"cdr", "rest"} -> IF a[1].t # "list" THEN bad ELSE IF Len(a[1].c) <= 1 THEN good(VNil) ELSE good(VQList(Rest(a[1].c)))
-    [] name = "length" -> IF a[1].t = "list" THEN good(VInt(Len(a[1].c))) ELSE bad
+    [] name = "car" -> IF a[1].t # "list" THEN bad ELSE IF Len(a[1].c) = 0 THEN good(VNil) ELSE good(a[1].c[1])
+    [] name = "first" -> IF ~IsSeq(a[1]) THEN bad ELSE IF Len(a[1].c) = 0 THEN good(VNil) ELSE good(a[1].c[1])
+    [] name = "cdr" -> IF a[1].t # "list" THEN bad ELSE IF Len(a[1].c) <= 1 THEN good(VNil) ELSE good(VQList(Rest(a[1].c)))
+    [] name = "rest" -> IF ~IsSeq(a[1]) THEN bad ELSE IF Len(a[1].c) <= 1 THEN good(VNil) ELSE good(VQList(Rest(a[1].c)))
+    [] name = "length" -> IF a[1].t \in {"list", "vec", "map"} THEN good(VInt(Len(a[1].c))) ELSE bad
+    [] name = "vector" -> good(VVec(a))
+    [] name \in {"vector?", "array?"} -> good(VBool(a[1].t = "vec"))
+    [] name = "string?" -> good(VBool(a[1].t = "str"))
+    [] name = "sorted-map?" -> good(VBool(a[1].t = "map"))
+    [] name = "aref" -> IF n # 2 \/ a[1].t # "vec" \/ a[2].t # "int" \/ a[2].n < 0 \/ a[2].n >= Len(a[1].c) THEN bad ELSE good(a[1].c[a[2].n + 1])
+    [] name = "sorted-map" -> IF n % 2 = 1 \/ ~KnownKeys(a) THEN bad ELSE good(MapFromArgs(a, 1, VMap(<<>>)))
+    [] name = "get" -> IF a[1].t # "map" \/ ~IsKey(a[2]) THEN bad
+                       ELSE LET j == MapIndex(a[1], a[2].s) IN IF j = 0 THEN good(VNil) ELSE good(a[1].c[j].c[2])
+    [] name = "key?" -> IF a[1].t # "map" \/ ~IsKey(a[2]) THEN bad ELSE good(VBool(MapIndex(a[1], a[2].s) > 0))
+    [] name = "keys" -> IF a[1].t # "map" THEN bad ELSE good(VQList([j \in 1..Len(a[1].c) |-> a[1].c[j].c[1]]))
+    [] name = "assoc" -> IF a[1].t # "map" \/ ~IsKey(a[2]) \/ KeyRank(a[2].s) >= 100 THEN bad ELSE good(MapPut(a[1], a[2], a[3]))
+    [] name = "dissoc" -> IF a[1].t # "map" \/ ~IsKey(a[2]) THEN bad
+                          ELSE good(VMap(SelectSeq(a[1].c, LAMBDA e : e.c[1].s # a[2].s)))
     [] name = "equal?" -> good(VBool(ValEqual(a[1], a[2])))
-    [] name = "second" -> IF a[1].t # "list" THEN bad ELSE IF Len(a[1].c) < 2 THEN good(VNil) ELSE good(a[1].c[2])
-    [] name = "nth" -> IF a[1].t # "list" \/ a[2].t # "int" \/ a[2].n < 0 THEN bad
+    [] name = "second" -> IF ~IsSeq(a[1]) THEN bad ELSE IF Len(a[1].c) < 2 THEN good(VNil) ELSE good(a[1].c[2])
+    [] name = "nth" -> IF ~IsSeq(a[1]) \/ a[2].t # "int" \/ a[2].n < 0 THEN bad
                        ELSE IF Len(a[1].c) <= a[2].n THEN good(VNil) ELSE good(a[1].c[a[2].n + 1])
-    [] name = "empty?" -> IF a[1].t \in {"list", "str"} THEN good(VBool(IF a[1].t = "list" THEN Len(a[1].c) = 0 ELSE a[1].s = "")) ELSE bad
+    [] name = "empty?" -> IF a[1].t \in {"list", "str", "vec", "map"} THEN good(VBool(IF a[1].t = "str" THEN a[1].s = "" ELSE Len(a[1].c) = 0)) ELSE bad
     [] name = "list?" -> good(VBool(a[1].t = "list"))
     [] name = "int?" -> good(VBool(a[1].t = "int"))
     [] name = "float?" -> good(VBool(a[1].t = "float"))
@@ -449,12 +500,12 @@ PureBuiltin(name, a) ==
     [] name = "mod" -> IF IntArgs(a) /\ a[2].n # 0 THEN good(VInt(GoMod(a[1].n, a[2].n))) ELSE bad
     [] name = "max" -> IF IntArgs(a) THEN good(VInt(SeqMax(a))) ELSE bad
     [] name = "min" -> IF IntArgs(a) THEN good(VInt(0 - SeqMax([j \in 1..n |-> VInt(0 - a[j].n)]))) ELSE bad
-    [] name = "reverse" -> IF a[1].t # "sym" \/ a[1].s # "list" \/ a[2].t # "list" THEN bad
-                           ELSE good(VQList([j \in 1..Len(a[2].c) |-> a[2].c[Len(a[2].c) + 1 - j]]))
-    [] name = "concat" -> IF a[1].t # "sym" \/ a[1].s # "list" \/ (\E j \in 2..n : a[j].t # "list") THEN bad
-                          ELSE LET all == FlatCells(Rest(a)) IN good(IF Len(all) = 0 THEN VNil ELSE VQList(all))
-    [] name = "append" -> IF a[1].t # "sym" \/ a[1].s # "list" \/ a[2].t # "list" THEN bad
-                          ELSE good(VQList(a[2].c \o SubSeq(a, 3, n)))
+    [] name = "reverse" -> IF ~SeqSpec(a[1]) \/ ~IsSeq(a[2]) THEN bad
+                           ELSE good(MakeSeq(a[1], [j \in 1..Len(a[2].c) |-> a[2].c[Len(a[2].c) + 1 - j]], FALSE))
+    [] name = "concat" -> IF ~SeqSpec(a[1]) \/ (\E j \in 2..n : ~IsSeq(a[j])) THEN bad
+                          ELSE good(MakeSeq(a[1], FlatCells(Rest(a)), TRUE))
+    [] name = "append" -> IF ~SeqSpec(a[1]) \/ ~IsSeq(a[2]) THEN bad
+                          ELSE good(MakeSeq(a[1], a[2].c \o SubSeq(a, 3, n), FALSE))
     [] OTHER -> bad
 
 PopCall(s) == [s EXCEPT !.frames = Pop(@), !.k = Pop(@)]
@@ -596,10 +647,10 @@ DoCall(s) ==
                    THEN (IF fa.p = "" /\ fa.s \notin {"true", "false"} /\ PkgHas(s, s.pkg, fa.s) THEN NameFun(s.pkgs[s.pkg].syms[fa.s], fa)
                          ELSE IF fa.p \notin {"", ":"} /\ PkgHas(s, fa.p, fa.s) THEN NameFun(s.pkgs[fa.p].syms[fa.s], fa) ELSE VNil)
                    ELSE fa IN
-         IF typed /\ ~(args[1].t = "sym" /\ args[1].s = "list" /\ args[1].p = "") THEN Fail(s, env)      \* (only 'list is modelled)
+         IF typed /\ ~SeqSpec(args[1]) THEN Fail(s, env)
          ELSE IF ~IsFun(fv) \/ (f.s \notin {"any?", "all?"} /\ FunKind(s, fv) # "fun") THEN Fail(s, env)
-         ELSE IF lis.t # "list" THEN Fail(s, env)
-         ELSE [s EXCEPT !.k = Append(@, [t |-> "hof", name |-> f.s, f |-> fv, items |-> IF f.s = "foldr" THEN [j \in 1..Len(lis.c) |-> lis.c[Len(lis.c) + 1 - j]] ELSE lis.c,
+         ELSE IF ~IsSeq(lis) THEN Fail(s, env)
+         ELSE [s EXCEPT !.k = Append(@, [t |-> "hof", name |-> f.s, f |-> fv, spec |-> IF typed THEN args[1] ELSE VQSym("list"), items |-> IF f.s = "foldr" THEN [j \in 1..Len(lis.c) |-> lis.c[Len(lis.c) + 1 - j]] ELSE lis.c,
                                          j |-> 0, acc |-> IF f.s \in {"foldl", "foldr"} THEN args[2] ELSE VNil, out |-> <<>>, env |-> env]),
                         !.ctl = [mode |-> "hofstep"]]
     [] f.s = "gensym" ->
@@ -647,8 +698,8 @@ CanHofStep(s) == s.ctl.mode = "hofstep"
 HofStep(s) ==
   LET h == Top(s.k)  n == Len(h.items) IN
   IF h.j >= n
-  THEN LET r == CASE h.name = "map" -> VQList(h.out)
-                  [] h.name \in {"select", "reject"} -> VQList(h.out)
+  THEN LET r == CASE h.name = "map" -> MakeSeq(h.spec, h.out, FALSE)
+                  [] h.name \in {"select", "reject"} -> MakeSeq(h.spec, h.out, FALSE)
                   [] h.name \in {"foldl", "foldr"} -> h.acc
                   [] h.name = "all?" -> VTrue
                   [] h.name = "any?" -> VFalse IN
